@@ -23,6 +23,9 @@ def main():
     ap.add_argument('--examples', type=int, default=None)
     args = ap.parse_args()
 
+    if os.environ.get('VF_FAULTHANDLER'):   # triage aid: kill -USR1 <pid> dumps all thread stacks to stderr
+        import faulthandler, signal
+        faulthandler.register(signal.SIGUSR1, all_threads=True)
     cache_dir = tempfile.mkdtemp(prefix='vf_cache_')
     os.environ['XDG_CACHE_HOME'] = cache_dir
     os.environ.setdefault('NUMBA_CACHE_DIR', os.path.join(cache_dir, 'numba'))
